@@ -56,6 +56,7 @@ func verifDoc2(focus int) (*openapi2.T, map[string]bool) {
 	case 2:
 		doc.Produces = []string{"text/plain"}
 		produces = "text/plain"
+		feat["docProduces"] = true
 	}
 	feat["produces:"+produces] = true
 	op.Parameters = append(op.Parameters, &openapi2.Parameter{Name: "id", In: "path", Required: true, Type: &openapi3.Types{"integer"}, Maximum: &maxf})
@@ -241,7 +242,7 @@ func verifDocument(focus int) {
 	if feat["produces:text/plain"] {
 		produces = "text/plain"
 	}
-	verifKnown("C17-produces-ignored", produces != "application/json")
+	verifKnown("C17-produces-ignored", feat["docProduces"]) // the operation's own produces is honoured
 	verifAssert(r200 != nil && r200.Value != nil && *r200.Value.Description == "ok" && r200.Value.Content[produces] != nil && r200.Value.Content[produces].Schema.Ref == "#/components/schemas/Item", "C17 document: response keeps description and schema reference under the media type the operation produces")
 	verifKnown("C17-produces-ignored", false)
 	if feat["fileResponse"] {
